@@ -105,18 +105,32 @@ def run(ctx):
     groups = {}
     for item in todo:
         groups.setdefault((item[1], item[2]), []).append(item)
+    # classification by the specification: does the rewrite hold when every division is exact?
+    allfail = list(fails.values())
+    ex = ctx.validate('Trace_ExprEquiv', 'Trace_ExprEquiv',
+                      [{'typings': ['real'], 'ref': {'form': 'tree', 'tree': X.realify(t), 'toks': []},
+                        'obs': {'form': 'tree', 'tree': X.realify(ot), 'toks': []}} for (t, _, _, ot, _) in allfail]) if allfail else {}
+    ctx.val_stats and allfail and ctx.val_stats.pop()
+    exact_ok = {id(item): (ex[i][0] and ex[i][1] != 'vacuous') for i, item in enumerate(allfail)}
+
+    def feature_of(item, shp):
+        if exact_ok.get(id(item)) and 'quot' in shp:
+            return 'division-exactness'
+        return 'other'
     for (typing, fv), items in groups.items():
         smalls = X.batch_shrink([it[0] for it in items], fails_batch_for(typing, fv), rounds=5, width=25)
-        for (t, _, _, ot, clause), small in zip(items, smalls):
+        for item, small in zip(items, smalls):
+            (t, _, _, ot, clause) = item
             shp = X.shape(small)
-            feature = 'quot' if 'quot' in shp else ('pow' if 'pow' in shp else 'other')
+            feature = feature_of(item, X.shape(t))
             ctx.violation(f'simplify:{typing}:{feature}:{X.shape1(small)}',
                           f'simplify({X.show(t)}, flags={fv}) -> {X.show(ot)} changes the value ({typing} typing): {clause}; shrunk input {X.show(small)}',
                           {'tree': t, 'typing': typing, 'flags': fv})
-    for (typing, shp), (t, _, fv, ot, clause) in list(fails.items()):
-        if (t, typing, fv, ot, clause) in todo:
+    for (typing, shp), item in list(fails.items()):
+        (t, _, fv, ot, clause) = item
+        if item in todo:
             continue
-        feature = 'quot' if 'quot' in shp else ('pow' if 'pow' in shp else 'other')
+        feature = feature_of(item, shp)
         ctx.violation(f'simplify:{typing}:{feature}:unshrunk', f'simplify({X.show(t)}, flags={fv}) -> {X.show(ot)}: {clause}',
                       {'tree': t, 'typing': typing, 'flags': fv})
     # a raise only counts when the input has at least one legal valuation (decided by TLC: ref vs itself)
